@@ -238,6 +238,25 @@ def load_known(prop):
     return [dict(k) for k in json.load(open(p)).get("findings", []) if k["property"] == prop]
 
 
+def source_digests(prop):
+    """sha256 of the implementation files the property is anchored in, as they are in the tree under test."""
+    out = {}
+    try:
+        repo = os.environ.get("VERIF_REPO", REPO)
+        for l in open(os.path.join(VERIF, "properties.jsonl")):
+            d = json.loads(l)
+            if d["id"] == prop:
+                for f in d.get("anchors", {}).get("files", []):
+                    fp = os.path.join(repo, f)
+                    out[f] = hashlib.sha256(open(fp, "rb").read()).hexdigest()[:16] if os.path.exists(fp) else "missing"
+        out["repo_head"] = subprocess.run(["git", "-C", repo, "rev-parse", "--short", "HEAD"], capture_output=True, text=True).stdout.strip()
+        out["repo_dirty"] = bool(subprocess.run(["git", "-C", repo, "status", "--porcelain", "--untracked-files=no"],
+                                                capture_output=True, text=True).stdout.strip())
+    except Exception as e:  # noqa: BLE001
+        out["error"] = repr(e)
+    return out
+
+
 def write_evidence(ctx: Ctx, proof):
     cov = {
         "obligations": proof["obligations"],
@@ -258,6 +277,7 @@ def write_evidence(ctx: Ctx, proof):
         "structural_differences": ctx.structural,
         "known_findings_reported": ctx.known_reported,
         "model_driver_calls": ctx.driver.calls,
+        "implementation_under_test": source_digests(ctx.prop),
         "notes": ctx.notes,
     }
     if not proof["ok"]:
